@@ -413,6 +413,12 @@ fn client_ops(sc: &Scenario, sink: &Sink) {
                                 "close" => {
                                     peer = None;
                                 }
+                                "badframe" => {
+                                    // a reply that violates the framing (foreign protocol id): the connection is given up
+                                    let _ = s.write_all(&[b[0], b[1], 0x12, 0x34, 0, 3, st.unit, 3, 0]);
+                                    std::thread::sleep(Duration::from_millis(150));
+                                    peer = None;
+                                }
                                 _ => {}
                             }
                         }
@@ -429,7 +435,7 @@ fn client_ops(sc: &Scenario, sink: &Sink) {
             let ok = wait_for(|| ctx.done.load(Ordering::SeqCst), st.timeout + 2500);
             wait_for(|| ctx.destroys.load(Ordering::SeqCst) > 0, 500);
             sink.emit(json!({"e":"ffi_end","r":i,"completed":ok,"completions":ctx.completions.load(Ordering::SeqCst),"destroys":ctx.destroys.load(Ordering::SeqCst)}));
-            if peer.is_none() && enabled && st.peer == "close" {
+            if peer.is_none() && enabled && (st.peer == "close" || st.peer == "badframe") {
                 // the channel reconnects after the retry delay
                 listener.set_nonblocking(false).ok();
                 if let Ok((s, _)) = listener.accept() {
